@@ -205,7 +205,7 @@ func (fr *FuncRun) flushBackEdges() {
 		fr.checkInvariants(k.f, k.head, merged, "inv-preserved")
 		for i, al := range k.f.autoLock[k.head] {
 			hh := fr.w.HeldHeap()
-			fr.assertObNoAssume(merged, "inv-preserved", fmt.Sprintf("loop%d:lockstate:%d", fr.loopOrdinal(k.f, k.head), i+1), eq(sel(fr.heapCur(merged, hh), al.addr), al.preVal), k.head.Instrs[0].Pos(), "every iteration leaves the locks it takes as they were at loop entry")
+			fr.assertObNoAssume(merged, "inv-preserved", lockLabel(k.f, fr.loopOrdinal(k.f, k.head), i+1), eq(sel(fr.heapCur(merged, hh), al.addr), al.preVal), k.head.Instrs[0].Pos(), "every iteration leaves the locks it takes as they were at loop entry")
 		}
 	}
 }
@@ -1547,4 +1547,12 @@ func rangeIntBound(head *ssa.BasicBlock, iter *ssa.Alloc) ssa.Value {
 // through loop-variant references to objects that are not statically fresh has no automatic frame for that heap.
 func (fr *FuncRun) loopReasonsAboutFreshness(f *Frame, head *ssa.BasicBlock) bool {
 	return f.contract != nil && f.contract.WeakFrame[fr.loopOrdinal(f, head)]
+}
+
+func lockLabel(f *Frame, n, i int) string {
+	l := fmt.Sprintf("loop%d:lockstate:%d", n, i)
+	if !f.top {
+		l = funcShortName(f.fn) + "." + l
+	}
+	return l
 }
